@@ -82,6 +82,9 @@ def run_tasks(tasks, seed=0, nproc=None):
         return [_work(a) for a in args]
     ctx = mp.get_context("spawn")
     out = []
+    import tempfile
+    stopfile = os.path.join(tempfile.gettempdir(), "verif_stop_%d_%d" % (os.getpid(), int(time.time() * 1000) % 10 ** 9))
+    os.environ["VERIF_STOPFILE"] = stopfile
     ex = cf.ProcessPoolExecutor(max_workers=min(nproc, len(args)), mp_context=ctx)
     try:
         for r in ex.map(_work, args, chunksize=1):
@@ -95,6 +98,10 @@ def run_tasks(tasks, seed=0, nproc=None):
             p.join(timeout=3)
             if p.is_alive():
                 p.kill()
+        try:
+            os.unlink(stopfile)
+        except OSError:
+            pass
     return out
 
 
